@@ -153,6 +153,19 @@ func Load(repoDir, goarch string, overlay map[string][]byte) (p *Prog, err error
 		}
 		p.Funcs = append(p.Funcs, fn)
 	}
+	// the recover block go/ssa adds to every function with a defer is dead unless some deferred function calls recover()
+	moduleUsesRecover = false
+	for _, fn := range p.Funcs {
+		for _, b := range fn.Blocks {
+			for _, in := range b.Instrs {
+				if call, ok := in.(ssa.CallInstruction); ok {
+					if bi, ok := call.Common().Value.(*ssa.Builtin); ok && bi.Name() == "recover" {
+						moduleUsesRecover = true
+					}
+				}
+			}
+		}
+	}
 	if os.Getenv("SONICSA_NOCANON") == "" {
 		for _, fn := range p.Funcs {
 			p.nCanon += canonicaliseOperands(fn)
@@ -208,3 +221,6 @@ func (p *Prog) Pos(pos token.Pos) string {
 	f := strings.TrimPrefix(ps.Filename, p.RepoDir+"/")
 	return fmt.Sprintf("%s:%d", f, ps.Line)
 }
+
+// moduleUsesRecover: some in-scope function calls recover() (then the synthetic recover blocks are live code).
+var moduleUsesRecover bool
